@@ -430,6 +430,11 @@ func loadChunk(l *Lexer, recordLen uint64) error {
 
 		_, err := io.ReadFull(l.reader, l.uncompressedChunk[:uncompressedSize])
 		if err != nil {
+			// a chunk that yields no data at all is corrupt, not the end of the file:
+			// do not let a bare io.EOF reach callers that test for errors.Is(err, io.EOF).
+			if errors.Is(err, io.EOF) {
+				err = io.ErrUnexpectedEOF
+			}
 			return fmt.Errorf("failed to decompress chunk: %w", err)
 		}
 
